@@ -18,6 +18,7 @@ def parseH : Nat → List String → Option (Hist × List String × List String)
     else if t == "f" then some (.fold, ["F"], ts)
     else if t == "P" then some (.fold, ["P"], ts)
     else if t == "Q" then some (.rev, ["Q"], ts)
+    else if t == "R" then some (.rev, ["R"], ts)
     else if t == "n" then (parseH fuel ts).map fun (h, g, r) => (.next h, g, r)
     else if t == "b" then (parseH fuel ts).map fun (h, g, r) => (.back h, g, r)
     else if t == "l" then (parseH fuel ts).map fun (h, g, r) => (.len h, g, r)
@@ -62,21 +63,36 @@ def handle (line : String) : String :=
     | [kind, a, b, p1s, p2s], toks =>
       match parseDims a b, p1s.toNat?, p2s.toNat?, parseH (toks.length + 1) toks with
       | some dims, some p1, some p2, some (h, tags, []) =>
+        let isMut := kind.endsWith "mut"
         if kind == "iter" || kind == "itermut" then
           answer Offsets.ops showNatItem h tags (Offsets.new dims)
         else if kind == "lanes" || kind == "lanesmut" then
-          if p1 < dims.length then answer (lanesOps dims p1) showItem h tags (lanesNew dims p1)
-          else "bad-request"
+          match lanesNew? dims p1 isMut with
+          | some s => answer (lanesOps dims p1) showItem h tags s
+          | none => "ok panic"
+        else if kind == "lane" || kind == "lanemut" then
+          -- the `p2`-th lane of `lanes(p1)`, then the history on that `Lane`/`LaneMut`
+          match lanesNew? dims p1 isMut with
+          | none => "ok panic"
+          | some s =>
+            match (Offsets.fold s)[p2]? with
+            | none => "ok nolane"
+            | some start =>
+              let d := dims.getD p1 (0, 0)
+              answer (if isMut then LaneIt.opsMut else LaneIt.ops) showNatItem h tags
+                (LaneIt.new d.1 d.2 start)
         else if kind == "inner" || kind == "innermut" then
-          if p1 ≤ dims.length then answer (innerOps dims p1) showItem h tags (innerNew dims p1)
-          else "bad-request"
+          match innerNew? dims p1 with
+          | some s => answer (innerOps dims p1) showItem h tags s
+          | none => "ok panic"
         else if kind == "axis" || kind == "axismut" then
-          if p1 < dims.length then answer AxisIter.ops showItem h tags (AxisIter.new ⟨0, dims⟩ p1)
-          else "bad-request"
+          match AxisIter.new? ⟨0, dims⟩ p1 isMut with
+          | some s => answer AxisIter.ops showItem h tags s
+          | none => "ok panic"
         else if kind == "chunks" || kind == "chunksmut" then
-          if p1 < dims.length && p2 > 0 then
-            answer AxisChunks.ops showItem h tags (AxisChunks.new ⟨0, dims⟩ p1 p2)
-          else "bad-request"
+          match AxisChunks.new? ⟨0, dims⟩ p1 p2 isMut with
+          | some s => answer AxisChunks.ops showItem h tags s
+          | none => "ok panic"
         else "bad-request"
       | _, _, _, _ => "bad-request"
     | _, _ => "bad-request"
